@@ -184,6 +184,15 @@ def run_case(c):
                     res["pkg_list"] = hashlib.md5(lp.SerializeToString(deterministic=True)).hexdigest()
                 except Exception as ex:  # noqa
                     res["pkg_list"] = "raise:" + type(ex).__name__
+                # … and netlists written straight from the design objects (the top; the list of all modules, and its reverse), not from a package
+                for label, src in (("top", b.top), ("list", list(b.modules.values())), ("rlist", list(b.modules.values())[::-1])):
+                    for fmt in ("spice", "spectre"):
+                        try:
+                            s = io.StringIO()
+                            h.netlist(src, s, fmt=fmt)
+                            res[f"direct_{label}_{fmt}"] = hashlib.md5(s.getvalue().encode()).hexdigest()
+                        except Exception as ex:  # noqa
+                            res[f"direct_{label}_{fmt}"] = "raise:" + type(ex).__name__
             res["pkg"] = hashlib.md5(pkg.SerializeToString(deterministic=True)).hexdigest()
             for fmt in ("spice", "spectre", "verilog"):
                 try:
